@@ -30,10 +30,12 @@ RULE = (
 )
 ASSUMPTIONS = [
     "coverage audit: dimensions Model/Transfer.v does not cover run as ORACLE-ONLY scenarios (case key oracle_only; "
-    "no correspondence item): injected FileExistsError, faults in the destination's existence query, a raising "
-    "validate_status, read-only destination, mixed hash names, real hard links on a plain LocalFileSystem, a "
-    "directory at an object's path, the memfs staging source of hashfile.build; failures whose signature is listed "
-    "in _transfer_common.PENDING_FINDINGS are collected in coverage.pending_findings instead of being raised",
+    "no correspondence item), judged by the same oracles: a contract-honouring FileExistsError (the object is placed, "
+    "then the exception raised: an id reported failed while present is allowed), faults in the destination's "
+    "existence query, a raising validate_status, read-only destination, real hard links on a plain LocalFileSystem "
+    "(source BYTES must stay; mode changes of a hard-linked source are not judged), the memfs staging source of "
+    "hashfile.build",
+] + TF.OBSERVATION_ASSUMPTIONS + [
     "non-flat listings (a listing naming another directory object's id) are run for the correspondence but are "
     "outside C04's quantifier: excluded from the closure audit and counted",
     "index-level push: oracle-only stream in C04 (dvc_data.index.push.push over collect(..., push=True) with a cache "
@@ -92,7 +94,7 @@ def _judge_and_register(ctx, S, notes, items):
     ctx.count("crash-rounds", sum(1 for ob in S.rounds if ob["crash"] is not None))
     ctx.count("audited-rounds", sum(1 for ob in S.rounds if TC.c04_preconditions(S, ob) is None))
     ctx.count("audit-points", sum(len(ob["snaps"]) + 1 for ob in S.rounds if TC.c04_preconditions(S, ob) is None))
-    problems = TC.report(ctx, TC.classify(S, problems), case)
+    problems = TC.report(ctx, problems, case)
     TC.count_dims(ctx, TC.dimensions(S) | set(n for n in notes if n.startswith(("stream:", "shape:", "name:", "audit:")) or n in TC.NOTE_DIMS))
     if case.get("oracle_only"):
         ctx.count("oracle-only-scenarios")
@@ -211,6 +213,7 @@ def _audit(ctx, items):
                 n += len(_judge_and_register(ctx, S, ["corpus"] + notes, items))
             finally:
                 S.close()
+    TF.run_observations(ctx, "C04")  # unjudged inputs, recorded only
     # the memfs staging source of hashfile.build (oracle-only; closure audit + retry)
     for case in TF.staging_cases():
         case = {**case, "prop": "C04"}
